@@ -54,6 +54,14 @@ def run(chk):
             metric = Levenshtein() if unit and rng.random() < 0.5 else WeightedLevenshtein(insertion_weight=wi, deletion_weight=wd, substitution_weight=ws)
             mf = {"metric": "wlev", "wi": wi, "wd": wd, "ws": ws}
             meta = {"xs": xs if not big else [f"len{len(s)}" for s in xs], "ys": ys if not big else [f"len{len(s)}" for s in ys], "w": [wi, wd, ws]}
+            if rng.random() < 0.4:
+                # the metric OBJECT has been used by other functions before (also by a call that raised half-way): it still measures the same
+                warm = [rand_str("ACD", rng.randint(1, 9)) for _ in range(4)]
+                core.call_real(lambda: ds.pcDelta(warm, metric=metric, bins=np.arange(0, 4)))
+                core.call_real(lambda: ds.pcDelta(warm + [None], metric=metric, bins=np.arange(0, 3)))
+                core.call_real(lambda: ds.pcDelta(warm, [None, "A"], metric=metric, bins=[0, 1, 2]))
+                core.call_real(lambda: ds.hierarchical_clustering(warm, metric=metric))
+                meta["metric_used_before"] = True
             rc = core.call_real(lambda: np.asarray(metric.calc_cdist_matrix(xs, ys)))
             rp = core.call_real(lambda: np.asarray(metric.calc_pdist_vector(xs)))
             ops.append({"op": "cdist_mat", "as": xs, "bs": ys, **mf})
@@ -71,6 +79,26 @@ def run(chk):
                     back = squareform(rp[1].astype(float))
                     if not np.array_equal(back, sq[1].astype(float)):
                         chk.violation("C08|calc_pdist_vector|squareform-roundtrip", "scipy squareform of the pdist vector differs from the cdist matrix", meta)
+    # a collection of more than 1024 (and 2048) strings: entries of the condensed vector sampled at random and at block boundaries
+    for m_big, w in ((1100, (1, 1, 1)), (2100, (1, 2, 3))) if not thorough else ((1100, (1, 1, 1)), (2100, (1, 2, 3)), (4200, (1, 1, 1))):
+        big = [rand_str("ACDE", rng.randint(0, 7)) for _ in range(m_big)]
+        metric = Levenshtein() if w == (1, 1, 1) else WeightedLevenshtein(insertion_weight=w[0], deletion_weight=w[1], substitution_weight=w[2])
+        rp = core.call_real(lambda: np.asarray(metric.calc_pdist_vector(big)))
+        chk.case(nontrivial_key=("pdist-large", m_big))
+        chk.count("pdist-large")
+        if rp[0] != "ok" or rp[1].shape != (m_big * (m_big - 1) // 2,):
+            chk.violation("C08|calc_pdist_vector|large|shape", f"calc_pdist_vector on {m_big} strings: {str(rp)[:120]}", {"m": m_big})
+            continue
+        pairs = [(rng.randrange(m_big - 1), None) for _ in range(150)] + [(i, None) for i in (0, 1022, 1023, 1024, 1025, m_big - 2) if i < m_big - 1]
+        pairs = [(i, rng.randrange(i + 1, m_big)) for i, _ in pairs] + [(1023, 1024), (1024, m_big - 1), (0, m_big - 1), (m_big - 2, m_big - 1)]
+        pops = [{"op": "wlev", "a": big[i], "b": big[j], "wi": w[0], "wd": w[1], "ws": w[2]} for i, j in pairs]
+        for (i, j), a in zip(pairs, core.run_driver_parallel(pops)):
+            pos = m_big * i + j - ((i + 2) * (i + 1)) // 2
+            chk.evaluations += 1
+            if a[0] != "ok" or int(rp[1][pos]) != int(a[1]):
+                chk.violation("C08|calc_pdist_vector|large|entry", f"calc_pdist_vector on {m_big} strings: entry for (i, j) = ({i}, {j}) at index {pos} is "
+                              f"{rp[1][pos]}, the distance of {big[i]!r} and {big[j]!r} is {a}", {"m": m_big, "i": i, "j": j, "a": big[i], "b": big[j], "weights": list(w)})
+                break
     # functional helpers: any metric callable, kwargs forwarded
     seen_kwargs = []
 
